@@ -133,11 +133,25 @@ def r2_draw_integers(ctx):
     ctx.ob("R2", "nonce-absorbed-first", good, "self.seed = merge_with_int(self.seed, nonce) dominates the draw loop", f)
 
 
+def _is_self_alias(f, l, depth=0):
+    """a `&mut self` handed to a spliced private helper: the helper's receiver is a copy / reborrow of _1."""
+    if l == 1:
+        return True
+    if depth > 6:
+        return False
+    ds = [d for d in f.defs(l) if d.get("p") and len(d["p"]) == 1]   # stores through the alias are not re-definitions
+    if len(ds) != 1 or ds[0]["kind"] != "assign":
+        return False
+    rv = ds[0]["rv"]
+    pl = op_place(rv[1]) if rv[0] == "use" else (rv[2] if rv[0] in ("ref", "rawptr") else None)
+    return bool(pl) and all(e == "*" for e in pl[1:]) and _is_self_alias(f, pl[0], depth + 1)
+
+
 def _field_writes(f, field):
     out = []
     for bi, b in enumerate(f.blocks):
         for s in b["s"]:
-            if s["k"] == "assign" and ir.place_fields(s["p"]) == [field] and s["p"][0] == 1:
+            if s["k"] == "assign" and ir.place_fields(s["p"]) == [field] and (s["p"][0] == 1 or _is_self_alias(f, s["p"][0])):
                 out.append((bi, s))
     return out
 
